@@ -127,11 +127,11 @@ fn lz_estimator(hc4: bool) {
     core::mem::forget(lz);
 }
 
-//@ {"name":"c17a_lz_estimator_hc4","props":["C17"],"obligation":"C17-A","timeout":900,"functions":["lz::lz_encoder::LZEncoder::get_memory_usage","lz::lz_encoder::LZEncoder::new_hc4","lz::lz_encoder::get_buf_size","lz::hc4::HC4::new","lz::hash234::Hash234::new"],"bounds":"dict_size every value in [4096, 1 GiB]; Fast/Normal extra sizes symbolic; nice_len 64","assumes":["hash/chain table byte sizes are restated from Hash234::new/HC4::new (the tables themselves are private to their modules)"]}
+//@ {"name":"c17a_lz_estimator_hc4","props":["C17"],"obligation":"C17-A","timeout":900,"playback_mem_gb":30,"functions":["lz::lz_encoder::LZEncoder::get_memory_usage","lz::lz_encoder::LZEncoder::new_hc4","lz::lz_encoder::get_buf_size","lz::hc4::HC4::new","lz::hash234::Hash234::new"],"bounds":"dict_size every value in [4096, 1 GiB]; Fast/Normal extra sizes symbolic; nice_len 64","assumes":["hash/chain table byte sizes are restated from Hash234::new/HC4::new (the tables themselves are private to their modules)"]}
 #[kani::proof]
 fn c17a_lz_estimator_hc4() { lz_estimator(true); }
 
-//@ {"name":"c17a_lz_estimator_bt4","props":["C17"],"obligation":"C17-A","timeout":900,"functions":["lz::lz_encoder::LZEncoder::get_memory_usage","lz::lz_encoder::LZEncoder::new_bt4","lz::bt4::BT4::new"],"bounds":"dict_size every value in [4096, 1 GiB]; Fast/Normal extra sizes symbolic; nice_len 64","assumes":["hash/tree table byte sizes restated from Hash234::new/BT4::new"]}
+//@ {"name":"c17a_lz_estimator_bt4","props":["C17"],"obligation":"C17-A","timeout":900,"playback_mem_gb":30,"functions":["lz::lz_encoder::LZEncoder::get_memory_usage","lz::lz_encoder::LZEncoder::new_bt4","lz::bt4::BT4::new"],"bounds":"dict_size every value in [4096, 1 GiB]; Fast/Normal extra sizes symbolic; nice_len 64","assumes":["hash/tree table byte sizes restated from Hash234::new/BT4::new"]}
 #[kani::proof]
 fn c17a_lz_estimator_bt4() { lz_estimator(false); }
 
@@ -151,4 +151,32 @@ fn c19a_lz_new_any_nice_len() {
     kani::cover!(nice == 1, "nice_len one");
     core::mem::forget(lz);
     core::mem::forget(le);
+}
+
+// C17-B: the public encoder estimator LZMAOptions::get_memory_usage() covers every table the encoder allocates for the
+// same options, including the literal coder (0x300 u16 per sub-coder, 2^(lc+lp) sub-coders).
+//@ {"name":"c17b_options_estimator_covers_tables","props":["C17"],"obligation":"C17-B","timeout":900,"functions":["enc::lzma2_writer::LZMAOptions::get_memory_usage","enc::encoder::LZMAEncoder::get_mem_usage","enc::encoder_fast::FastEncoderMode::get_memory_usage","enc::encoder_normal::NormalEncoderMode::get_memory_usage","lz::lz_encoder::LZEncoder::get_memory_usage"],"bounds":"dict_size any value in [4096, 1 GiB]; lc 0..=8, lp 0..=4 (the LZMA1 writer accepts all of them), pb 0..=4; both modes and match finders","assumes":["table sizes restated from the constructors (LiteralEncoder::new: 2^(lc+lp) sub-coders of 0x300 u16; LZEncoder sizes as in c17a, which reads them back from the real object)"]}
+#[kani::proof]
+fn c17b_options_estimator_covers_tables() {
+    let dict: u32 = kani::any();
+    kani::assume(dict >= 4096 && dict <= (1 << 30));
+    let (lc, lp, pb): (u32, u32, u32) = (kani::any(), kani::any(), kani::any());
+    kani::assume(lc <= 8 && lp <= 4 && pb <= 4);
+    let fast: bool = kani::any();
+    let hc4: bool = kani::any();
+    let o = crate::LZMAOptions::new(dict, lc, lp, pb, if fast { EncodeMode::Fast } else { EncodeMode::Normal }, 64, if hc4 { MFType::HC4 } else { MFType::BT4 }, 0);
+    let est = o.get_memory_usage() as u64 * 1024;
+    let literal_tables = (0x300u64 * 2) << (lc + lp);
+    let eb = core::cmp::max(crate::enc::lzma2_writer::get_extra_size_before(dict), if fast { 1 } else { 4096 });
+    let ea = if fast { 272u64 } else { 4096 };
+    let window = eb as u64 + dict as u64 + ea + 273 + core::cmp::min(dict as u64 / 2 + (256 << 10), 512 << 20);
+    let mut h = dict - 1;
+    h |= h >> 1; h |= h >> 2; h |= h >> 4; h |= h >> 8; h >>= 1; h |= 0xFFFF;
+    if h > (1 << 24) { h >>= 1; }
+    let hash = 4 * ((1u64 << 10) + (1 << 16) + h as u64 + 1);
+    let chain = 4 * (dict as u64 + 1) * if hc4 { 1 } else { 2 };
+    let need = literal_tables + window + hash + chain;
+    assert!(est >= need, "C17-B: LZMAOptions::get_memory_usage() is below the tables the encoder allocates for these options");
+    kani::cover!(lc + lp == 12, "largest literal coder");
+    kani::cover!(lc + lp <= 4, "LZMA2-compatible options");
 }
